@@ -88,6 +88,45 @@ def gpo_models(chk, tier, small=False):
     chk.exhaustive = True
 
 
+def gpo_real_pairs(chk, tier):
+    """the real (N, half) of every budget in a range and every rho_max of a grid, all in one TLC run"""
+    import json, os
+    pairs = set()
+    ns = range(100, 2001, 1 if tier != "quick" else 37)
+    for rm in ([0.5, 0.7, 0.8, 0.85, 0.9, 0.93, 0.95] if tier != "quick" else [0.7, 0.9]):
+        for n in ns:
+            c = K.gpo_consts(n, rm)
+            if c["N"] >= 1 and c["half"] >= 1 and not c["amb"]:
+                pairs.add((c["N"], c["half"]))
+    pj = os.path.join(chk.wd, "gpo_pairs.json")
+    json.dump({"pairs": sorted(pairs), "nmax": 2000}, open(pj, "w"))
+    cfg = chk.write_cfg("gpo_pairs", None, invariants=["InvLearners", "InvValidation", "InvBudget", "InvFinal", "InvFits"])
+    os.environ["MC_PARAMS"] = pj
+    try:
+        chk.mc("MC_GPOS.tla", cfg, "gpo_real_pairs")
+    finally:
+        os.environ.pop("MC_PARAMS", None)
+    chk.notes["real_schedules_model_checked"] = len(pairs)
+
+
+def poo_real_tables(chk, tier):
+    import json, os
+    tabs = []
+    for rm in ([0.84, 0.87, 0.9, 0.93, 0.96, 0.98, 0.99] if tier != "quick" else [0.84, 0.9, 0.97]):
+        c = K.poo_consts(rm)
+        if not c["amb"] and c["thr"][1] <= 2:
+            tabs.append(c["thr"])
+    pj = os.path.join(chk.wd, "poo_tables.json")
+    json.dump({"tables": tabs, "R": 300 if tier == "quick" else 1200}, open(pj, "w"))
+    cfg = chk.write_cfg("poo_tables", None, invariants=["InvSchedule", "InvGrid", "InvRouting", "InvCodedMean"])
+    os.environ["MC_PARAMS"] = pj
+    try:
+        chk.mc("MC_POOS.tla", cfg, "poo_real_tables")
+    finally:
+        os.environ.pop("MC_PARAMS", None)
+    chk.notes["real_threshold_tables_model_checked"] = len(tabs)
+
+
 def poo_models(chk, tier):
     grid = [("{1, 2, 3, 99}", 4, "{0, 1}", 10)] if tier == "quick" else [("{1, 2, 3, 5, 99}", 4, "{0, 1}", 14), ("{1, 2, 99}", 5, "{0, 2}", 13), ("{1, 2}", 3, "{0, 1, 3}", 10)]
     for j, (m, k, rew, R) in enumerate(grid):
